@@ -32,15 +32,23 @@ META = {
             "note": "labels are turned into bytes by a harness-side central (wrong = one flipped bit, invalid key = point off the "
                     "curve); no liveness is demanded (a valid step may be refused); trusted: TLC, harness/sm, clang/ASan/UBSan.",
             "technique": _T, "design_ref": "5.9"},
-    "C33": {"text": "Same model and behaviours (each extended by find_key probes through the connection-data interface the link "
-                    "layer uses); guard G33: a key is offered only for (EDIV,Rand)=(0,0) after an exchange whose every "
-                    "verification step passed, and then it is the key the reference computation yields, or it is what the bond "
-                    "data base legitimately holds for (EDIV,Rand,peer).",
-            "note": "bond data base is a harness object (preset entry + what the manager stores); 'legitimately holds' is tracked "
-                    "by the spec (stored by a verified pairing).", "technique": _T, "design_ref": "5.9"},
-    "C34": {"text": "Same model and behaviours with encryption changes and output polls interleaved; guard G34: Encryption "
-                    "Information / Central Identification appear only while encrypted, only after a completed pairing, each at "
-                    "most once per pairing.",
+    "C33": {"text": "Same model and behaviours, each extended by find_key probes (through the connection-data interface the link "
+                    "layer uses) for every (EDIV,Rand) class - (0,0), a bonded pair, an unknown pair, the pair of the bond created "
+                    "on this connection, (0,Rand), (EDIV,0) - with a script controlled bond data base that holds entries of this "
+                    "peer and of another device (distinct key values) and stores / erases a (0,0) bond of this peer between the "
+                    "probes; guard G33 judges the identity of the offered key: for (0,0) after an exchange whose every "
+                    "verification step passed it is the key the reference computation yields for that exchange (also when a "
+                    "bond entry exists for (0,0)); otherwise it is exactly the entry the bond data base legitimately holds for "
+                    "(EDIV,Rand,this peer).",
+            "note": "bond data base is a harness object (application entries + what the manager stores); 'legitimately holds' is "
+                    "tracked by the spec (stored by the application or by a verified pairing); the managers read the data base "
+                    "only in find_key, so entries are stored at the start and between probes, not between SMP PDUs.",
+            "technique": _T, "design_ref": "5.9"},
+    "C34": {"text": "Same model and behaviours; while key distribution items are pending (or encryption is on) encryption on / off "
+                    "is an input of the generator between any two inputs (output polls in particular), and every behaviour is "
+                    "followed by polls with encryption off / on / off / on; guard G34 judges every emitted PDU against the "
+                    "encryption state at that call: Encryption Information / Central Identification appear only while encrypted, "
+                    "only after a completed pairing, each at most once per pairing.",
             "note": "only the legacy pairing of a manager with bonding_data_base distributes keys.", "technique": _T,
             "design_ref": "5.9"},
     "C35": {"text": "Same model and behaviours; guard G35 on every event: local_device_pairing_status() = authenticated iff the "
